@@ -49,6 +49,8 @@ def features(deck):
         f.add('irrelevant_kw')
     if any(c.get('kwshuffle') is not None for c in deck['cells']):
         f.add('keyword_order')
+    if deck.get('cardorder'):
+        f.add('card_order')
     return sorted(f)
 
 
@@ -68,6 +70,14 @@ def run(chk, decks, clauses, seed, optsets, npts=110, decorate=None, lo=-11, hi=
             d = adeck.renumber(d, *adeck.RENUMBERINGS[1 + (i // 3) % 3])
         if i % 4 == 2:
             d['plusspell'] = True        # '+3' is a valid MCNP number
+        if i % 5 == 0 and not d.get('impcards') and not any(c.get('like') or c.get('impsrc') == 'data' for c in d['cells']):
+            # the cards of a block in another order (cells of one universe no longer on consecutive cards,
+            # surface numbers not increasing down the block)
+            d['cells'] = list(d['cells'])
+            d['surfs'] = list(d['surfs'])
+            rng.shuffle(d['cells'])
+            rng.shuffle(d['surfs'])
+            d['cardorder'] = True
         if i % 5 == 1:
             adeck.irrelevant_keywords(d, rng)      # VOL=, NONU=, TMP=, UNC:N= ... on the cell cards
         if i % 5 == 2:
